@@ -7,11 +7,11 @@ package cache
 // present afterwards.  Last-use times are set through the verif hooks so that runs are deterministic.
 
 import (
-	"runtime"
 	"bufio"
 	"encoding/json"
 	"fmt"
 	"os"
+	"runtime"
 	"sort"
 	"sync"
 	"testing"
